@@ -82,9 +82,8 @@ theorem failing_tip_dropped (st : GVL) (v : Vertex) (e : CModel.Err) (h : st.boo
 
 /-- Intermediate books of a call keep the funds invariant, so `validated_means_covered'` applies
 to every `ValidatedIn` / `CheckedIn` witness. -/
-theorem intermediate_fundsOK {b bm : Book} (r : Reachable b) (s : Steps b bm) : FundsOK bm where
-  verts := fun v hv => (canonB_iff _).1 ((r.inv.steps s).canon v (List.mem_append_left _ hv))
-  cp := by rw [s.frame.2.2.2.2, r.noCheckpoint.1]; intro e he; cases he
+theorem intermediate_fundsOK {b bm : Book} (r : Reachable b) (s : Steps b bm) : FundsOK bm :=
+  r.fundsOK_steps s
 
 /-- Non-vacuity: in the reachable example ledger the spend `v1` (3 out of 10 received) is covered,
 an overdraft of 11 is not. -/
